@@ -38,10 +38,12 @@ META.update({
                 "= body size, multiple of 4) is established by Build from ANY previous state and preserved by every "
                 "building operation incl. typed, integrity and fingerprint setters, for sequences of any length "
                 "(induction); decoding the raw bytes of a canonical message returns exactly the struct (via the C02 "
-                "completeness theorem) and Equal agrees. Rests on a closed-form lemma for Add over an explicit "
+                "completeness theorem) and Equal agrees; Encode on any struct with a well-formed attribute list is canonical and "
+                "decode-then-encode reproduces the canonical bytes (encode_canonical, decode_then_encode). Rests on a "
+                "closed-form lemma for Add over an explicit "
                 "spare-capacity buffer model. Correspondence: random building sequences with library re-decode.",
         "note": PROOF_NOTE + "Precondition as in the property: sizes fit the 16-bit length field (AllFit/OpsFit). "
-                "Encode-from-decoded is covered by the correspondence only (theorem not yet proved).",
+                "WriteAttributes on its own (outside Encode) is covered by the correspondence only.",
         "technique": "Lean 4 invariant proof by induction over operation sequences + differential correspondence",
     },
     "C08": {
@@ -203,8 +205,9 @@ META.update({
     "C15": {
         "text": "Proof (L1): first Close succeeds (nil/CloseErr), closes the connection once iff owned, completes the "
                 "transactions in flight with ErrAgentClosed (its only handler invocations), writes nothing; later Closes return ErrClientClosed; after Close every Start/Indicate returns ErrClientClosed "
-                "without writing and no operation produces any output. Goroutine exit and race freedom are observed "
-                "(Close must return; -race build), not proved.",
+                "without writing and no operation produces any output. Goroutine exit, deadlock and race freedom are "
+                "observed (reader must have left Read when Close returns; concurrent Close/Start/Indicate/SetRTO; Close against "
+                "the default ticker collector while transactions keep timing out; -race build), not proved.",
         "note": CLIENT_NOTE,
         "technique": "Lean 4 theorems over the L1 model + history correspondence incl. -race build",
     },
